@@ -308,12 +308,24 @@ def _worker_main(engine_name, prop, tier, master, worker_id, nworkers, start_ind
     digests = {}
     n = 0
     steps = 0
+    crashes = []
     idx = start_index + worker_id
     gc.disable()
     try:
         while n < max_runs and time.monotonic() < deadline:
             faulthandler.dump_traceback_later(watchdog_s, exit=True)
-            out = engine.run_index(ctx, prop, tier, master, idx, opts)
+            try:
+                out = engine.run_index(ctx, prop, tier, master, idx, opts)
+            except HarnessError as e:
+                # one run broke the simulator (never a pass: reported as exit 2 unless
+                # another run of this batch pins down a proper violation)
+                faulthandler.cancel_dump_traceback_later()
+                crashes.append((idx, str(e)[-1500:]))
+                n += 1
+                idx += nworkers
+                if len(crashes) > 20:
+                    break
+                continue
             faulthandler.cancel_dump_traceback_later()
             stats.merge(out.stats)
             steps += out.steps
@@ -331,7 +343,7 @@ def _worker_main(engine_name, prop, tier, master, worker_id, nworkers, start_ind
         faulthandler.cancel_dump_traceback_later()
         engine.worker_fini(ctx)
     return {"runs": n, "stats": stats, "violating": outcomes, "samples": samples,
-            "digests": digests, "steps": steps,
+            "digests": digests, "steps": steps, "crashes": crashes,
             "first": start_index + worker_id, "last": idx - nworkers}
 
 
@@ -357,12 +369,13 @@ def run_batch(engine_name, prop, tier, master, budget_s, max_runs, nworkers,
             for p in list(getattr(pool, "_processes", {}).values()):
                 p.kill()
             raise HarnessError("worker batch timed out") from e
-    merged = {"runs": 0, "stats": Stats(), "violating": [], "samples": [],
+    merged = {"runs": 0, "stats": Stats(), "violating": [], "samples": [], "crashes": [],
               "digests": {}, "steps": 0, "first": start_index, "last": start_index}
     for r in results:
         merged["runs"] += r["runs"]
         merged["stats"].merge(r["stats"])
         merged["violating"].extend(r["violating"])
+        merged["crashes"].extend(r["crashes"])
         merged["samples"].extend(r["samples"])
         merged["digests"].update(r["digests"])
         merged["steps"] += r["steps"]
